@@ -3,6 +3,26 @@ from checks import oracles
 from checks.durable_check import fault_enumeration, replay_execution, run_durable
 
 
+def slow_api(ctx, execs):
+    """checkpoint calls that take a long (virtual) time - seconds to minutes - with and without a failure at the end: a caller of a
+    synchronous checkpoint must stay blocked for as long as the call is in flight"""
+    from checks.durable_common import CURATED, run_campaign
+    items = []
+    for nm in ["s01_step_wait_retry", "s03_child_wfc", "s10_uncaught_failure"] + ([] if ctx.quick else ["s04_cb_invoke", "s12_wfc_three_polls"]):
+        for lat in ((75.0,) if ctx.quick else (5.0, 75.0, 400.0)):
+            items.append((CURATED[nm], {"seed": 77, "api_latency": lat, "hang_after": 4 * lat + 100, "max_inv": 14}))
+            for k in (1, 2, 3):
+                items.append((CURATED[nm], {"seed": 78 + k, "api_latency": lat, "hang_after": 4 * lat + 100, "max_inv": 14,
+                                            "faults": {str(k): "invalid_param"}}))
+    out = run_campaign(ctx, items)
+    for e in out:
+        for fn in (oracles.c03, oracles.c06, oracles.c07):
+            fn(ctx, e)
+    more = fault_enumeration(ctx, ["s01_step_wait_retry", "s03_child_wfc", "s12_wfc_three_polls", "s22_slow_steps", "s23_slow_caught"],
+                             [oracles.c03, oracles.c06], faults=["invalid_param", "throttle429"])
+    return out + more
+
+
 def run(ctx):
     run_durable(ctx,
                 model=["s01_step_wait_retry", "s03_child_wfc", "s04_cb_invoke", "s09_large_final"],
@@ -10,8 +30,7 @@ def run(ctx):
                           "s10_uncaught_failure", "s12_wfc_three_polls", "s16_wait_wait", "s22_slow_steps", "s23_slow_caught"],
                 oracle_fns=[oracles.c03, oracles.c06, oracles.c07],
                 scen_kw={"crash": 0.3, "faults": 0.5, "pct": 0.6},
-                post=lambda c, ex: fault_enumeration(c, ["s01_step_wait_retry", "s03_child_wfc", "s12_wfc_three_polls", "s22_slow_steps",
-                                                        "s23_slow_caught"], [oracles.c03, oracles.c06], faults=["invalid_param", "throttle429"]),
+                post=slow_api,
                 extra_rule="Oracle: at every delivery the backend table (read in the same scheduling step) holds the terminal record; "
                            "PENDING only with something registered; the consumer thread is delayed arbitrarily by PCT/random schedules; "
                            "checkpoint API faults at random call positions.")
